@@ -258,4 +258,19 @@ Section UnitCWalk.
       pose proof (enc_forest_list_len codes bigend hl f) as Hb.
       cbn [c0 c_raw r_in]. unfold body, enc_forest. rewrite app_length. unfold nlen in *. lia.
   Qed.
+
+  (* the tree iterator of the whole unit, entries_tree(None): the first top-level entry *)
+  Lemma tree_any_walk_root sel t ts0 : f = t :: ts0 ->
+    exists ts, entries_tree dbg hdr None = Ok ts /\
+               walk_tree_plan dbg e tbl sel ts = Ok (sel_tree codes sel 0 hl t, None).
+  Proof.
+    intros Ef.
+    assert (Hhs : header_size dbg hdr = Ok hl).
+    { pose proof Hlen as Hl. unfold hl in Hl |- *. apply header_size_parsed. rewrite header_len_split in Hl.
+      unfold unit_length_of, two63 in *. unfold two64.
+      assert (initial_length_size (uh_fmt64 h) >= 4) by (destruct (uh_fmt64 h); cbn; lia). lia. }
+    destruct (tree_any_walk dbg bigend types uoff h codes f pad tbl He Hlen Hcov Hok Hfit sel hl t) as (ts & E1 & E2).
+    - rewrite Ef, on_list_cons. apply in_or_app. left. rewrite placed_unfold. left. reflexivity.
+    - exists ts. split; [|exact E2]. rewrite <- E1. unfold entries_tree. fold hdr. rewrite Hhs. reflexivity.
+  Qed.
 End UnitCWalk.
